@@ -1,7 +1,7 @@
 (* C09 — Dispersion measures are non-negative and bands are ordered around their middle. Statements only. *)
 From Coq Require Import Reals.
 From TA Require Import Base Model XR Proofs.Ring Proofs.XBase Proofs.XSma Proofs.XWma Proofs.XMad Proofs.XSd Proofs.MinMaxProofs
-  Proofs.Wiring Proofs.XEma Proofs.XCor.
+  Proofs.Wiring Proofs.XEma Proofs.XCor Proofs.XBands.
 Open Scope R_scope.
 
 (* histograms equal line - signal with no slack at all: any number type, hence bit-exact for binary64 *)
@@ -45,3 +45,21 @@ Theorem C09_tr_nonneg : forall (t : @Tr XR) h l c, l <= h ->
   (match tr_prev_close t with Some (Fin _) | None => True | _ => False end) ->
   exists r, snd (tr_next_bar XROps t (mkBar (Fin 0) (Fin h) (Fin l) (Fin c) (Fin 0))) = Fin r /\ 0 <= r.
 Proof. exact tr_bar_nonneg. Qed.
+
+(* AverageTrueRange >= 0, KeltnerChannel bands ordered, ChandelierExit inside the window extremes: bars with finite prices and
+   low <= high ([mkb (h,l,c)] is the bar; open and volume are not read), every period, every finite multiplier >= 0 *)
+Theorem C09_atr_nonneg : forall p a bars, atr_new XROps p = Ok a -> Forall valid bars ->
+  exists rs, atr_bar_outs XROps a (map mkb bars) = map Fin rs /\ length rs = length bars /\ forall r, In r rs -> 0 <= r.
+Proof. exact atr_bar_nonneg. Qed.
+Theorem C09_kc_ordered : forall p mu k bars, kc_new XROps p (Fin mu) = Ok k -> 0 <= mu -> Forall valid bars ->
+  Forall (fun o => exists a u l, o = [Fin a; Fin u; Fin l] /\ l <= a <= u) (kc_bar_outs XROps k (map mkb bars)).
+Proof. exact kc_bar_ordered. Qed.
+Theorem C09_ce_bounds : forall p mu c bars, ce_new XROps p (Fin mu) = Ok c -> 0 <= mu -> Forall valid bars ->
+  let highs := map (fun b : rbar => fst (fst b)) bars in
+  let lows := map (fun b : rbar => snd (fst b)) bars in
+  forall k, (k < length bars)%nat ->
+    exists lg sh mx mn, nth k (ce_outs XROps c (map mkb bars)) [] = [Fin lg; Fin sh] /\
+      In mx (lastn (N.to_nat p) (firstn (S k) highs)) /\ (forall y, In y (lastn (N.to_nat p) (firstn (S k) highs)) -> y <= mx) /\
+      In mn (lastn (N.to_nat p) (firstn (S k) lows)) /\ (forall y, In y (lastn (N.to_nat p) (firstn (S k) lows)) -> mn <= y) /\
+      lg <= mx /\ mn <= sh.
+Proof. exact ce_bounds. Qed.
